@@ -323,6 +323,33 @@ fn main() {
         std::process::exit(2);
     }
     let prop = args[1].clone();
+    if prop == "probe" {
+        // triage aid: corr probe <program-file> <goal text> [slg|recursive]
+        let text = std::fs::read_to_string(&args[2]).expect("program file");
+        let which = args.get(4).cloned();
+        for (name, choice) in solver::solver_choices() {
+            if which.as_deref().map_or(false, |w| w != name) {
+                continue;
+            }
+            match solver::lower_program(&text, choice.clone()) {
+                Err(e) => println!("{}: lowering failed: {}", name, e),
+                Ok((_, program)) => match solver::lower_goal_text(&program, &args[3]) {
+                    Err(e) => println!("{}: goal failed: {}", name, e),
+                    Ok(g) => {
+                        let budget = std::env::var("PROBE_BUDGET").ok().and_then(|b| b.parse::<u64>().ok());
+                        chalk_recursive::verif::reset_work(budget);
+                        chalk_engine::verif_work::reset(budget);
+                        let r = solver::solve_fresh(&text, &solver::peel(&g), choice);
+                        let work = chalk_recursive::verif::work() + chalk_engine::verif_work::work();
+                        chalk_recursive::verif::reset_work(None);
+                        chalk_engine::verif_work::reset(None);
+                        println!("{}: {} {:?} work={}", name, solver::answer_kind(&r), r.as_ref().err(), work);
+                    }
+                },
+            }
+        }
+        return;
+    }
     let mut tier = "quick".to_string();
     let mut seed: u64 = 1;
     let mut outdir = ".".to_string();
